@@ -98,6 +98,17 @@ CLAIMED = {
              "search; dimensions <= 12 (grids <= 60 nodes in the thorough tier).",
         note="Trusted: numpy; tolerance 1e-9 for sine-transform round trips; nodes within 1e-9 of a step boundary may belong to either adjacent step.",
         design="3/C13"),
+    "C15": dict(
+        technique="Hypothesis property tests: closed-form posterior mean/covariance from a basis-probed effective matrix, optimality probes + gradient test, multi-start reference optimum, scripted normal draws for the direct sampling route",
+        text="Generated linear-Gaussian problems (every covariance form for noise and prior, non-zero prior mean, default/Continuous1D/KL/"
+             "Step domain geometries, matrix- and function-backed models) and smooth unimodal non-linear problems: MAP must equal the "
+             "closed-form posterior mean computed with the effective parameter-to-output matrix (or raise), ML the weighted least-squares "
+             "solution; no probe point at 1e-3..1e-1 posterior standard deviations may have a larger logd and the gradient must vanish in "
+             "units of the posterior scale; for non-linear problems the estimate must be as good as a multi-start high-precision optimum; "
+             "with np.random.randn scripted the direct sampling route must have offset = closed-form mean and B B^T = closed-form covariance.",
+        note="Trusted: numpy.linalg closed forms; scipy optimisers for the multi-start reference. Exceptions are refusals (allowed). "
+             "Matrix-backed models with KL/Step geometry are a recorded finding (excluded, counted).",
+        design="3/C15"),
     "C16": dict(
         technique="Hypothesis property tests: optimality-system residuals vs numpy.linalg references, matrix-vs-function differential, differential against direct SciPy calls, variational characterisation of projections/prox",
         text="CGLS/PCGLS run to tolerance 1e-12 on generated well-conditioned problems (over/under-determined, dense/sparse/function "
